@@ -25,6 +25,14 @@ from cssutils.helper import normalize, pushtoken
 from cssutils.prodparser import Choice, PreDef, Prod, ProdParser, Sequence
 
 
+def _firstvalue(seq):
+    "Return the first item of `seq` that is no comment (a text may start with one)."
+    for item in seq:
+        if not isinstance(item.value, cssutils.css.CSSComment):
+            return item
+    return None
+
+
 class PropertyValue(cssutils.util._NewBase):
     """
     An unstructured list like holder for all values defined for a
@@ -274,8 +282,9 @@ class Value(cssutils.util._NewBase):
         self.wellformed = ok
         if ok:
             # only 1 value anyway!
-            self._type = seq[0].type
-            self._value = seq[0].value
+            item = _firstvalue(seq)
+            self._type = item.type
+            self._value = item.value
 
             self._setSeq(seq)
 
@@ -396,7 +405,8 @@ class ColorValue(Value):
         ok, seq, store, unused = ProdParser().parse(cssText, self.type, prods)
         self.wellformed = ok
         if ok:
-            t, v = seq[0].type, seq[0].value
+            item = _firstvalue(seq)
+            t, v = item.type, item.value
             if 'IDENT' == t:
                 rgba = self.COLORS[normalize(v)]
             if 'HASH' == t:
@@ -569,9 +579,12 @@ class DimensionValue(Value):
             )
         )
         ok, seq, store, unused = ProdParser().parse(cssText, 'DimensionValue', prods)
+        if ok and _firstvalue(seq) is None:
+            ok = False
+            self._log.error('DimensionValue: No value found: %r' % cssText)
         self.wellformed = ok
         if ok:
-            item = seq[0]
+            item = _firstvalue(seq)
 
             sign, v, d = self.__reUnNumDim.findall(normalize(item.value))[0]
             try:
@@ -629,11 +642,15 @@ class URIValue(Value):
         prods = Sequence(PreDef.uri(stop=True))
 
         ok, seq, store, unused = ProdParser().parse(cssText, 'URIValue', prods)
+        if ok and _firstvalue(seq) is None:
+            ok = False
+            self._log.error('URIValue: No value found: %r' % cssText)
         self.wellformed = ok
         if ok:
             # only 1 value only anyway
-            self._type = seq[0].type
-            self._value = seq[0].value
+            item = _firstvalue(seq)
+            self._type = item.type
+            self._value = item.value
 
             self._setSeq(seq)
 
